@@ -663,6 +663,37 @@ func (m *dsim) cacheRoundTrip(main int, ref []string, tarLayout bool) {
 		panic(err)
 	}
 	var depKeys []bufmodule.ModuleKey
+	var depDigests []string
+	for _, d := range m.allDeps(main) {
+		depDigests = append(depDigests, ref[d])
+	}
+	// a remote module may list two differently named dependencies with identical content
+	// (a fork or mirror): both digests enter the b5 construction
+	mirror := len(depDigests) > 0 && m.tp.Draw("mirror", 2) == 1
+	if mirror {
+		depDigests = append(depDigests, depDigests[0])
+		pinned := refB5(md.files, depDigests)
+		pd, err := bufmodule.ParseDigest(pinned)
+		if err != nil {
+			panic(err)
+		}
+		refDigest = pd
+		key, err = bufmodule.NewModuleKey(fn, md.commit, func() (bufmodule.Digest, error) { return refDigest, nil })
+		if err != nil {
+			panic(err)
+		}
+		mfn, _ := bufparse.ParseFullName("buf.build/acme/mirror")
+		first := m.allDeps(main)[0]
+		dd, _ := bufmodule.ParseDigest(ref[first])
+		mc := m.mods[first].commit
+		mc[14] ^= 0x5a
+		mk, err := bufmodule.NewModuleKey(mfn, mc, func() (bufmodule.Digest, error) { return dd, nil })
+		if err != nil {
+			panic(err)
+		}
+		depKeys = append(depKeys, mk)
+		m.s.Probe("mirror-dependency")
+	}
 	for _, d := range m.allDeps(main) {
 		dfn, _ := bufparse.ParseFullName(m.mods[d].name)
 		dd, err := bufmodule.ParseDigest(ref[d])
